@@ -1,4 +1,33 @@
 package main
 
-// redirectTable maps real callees to model functions executed symbolically.
-var redirectTable = map[string]string{}
+const lmdbPkg = "github.com/PowerDNS/lmdb-go/lmdb"
+
+// redirectTable maps real callees to model functions (ordinary Go in the
+// harness runtime package) that are executed symbolically in their place.
+var redirectTable = map[string]string{
+	zzPath + ".NewEnv":                  zzPath + ".MNewEnv",
+	"(*" + lmdbPkg + ".Env).Info":       zzPath + ".MEnvInfo",
+	"(*" + lmdbPkg + ".Env).View":       zzPath + ".MEnvView",
+	"(*" + lmdbPkg + ".Env).Update":     zzPath + ".MEnvUpdate",
+	"(*" + lmdbPkg + ".Txn).ID":         zzPath + ".MTxnID",
+	"(*" + lmdbPkg + ".Txn).OpenDBI":    zzPath + ".MTxnOpenDBI",
+	"(*" + lmdbPkg + ".Txn).CreateDBI":  zzPath + ".MTxnCreateDBI",
+	"(*" + lmdbPkg + ".Txn).OpenRoot":   zzPath + ".MTxnOpenRoot",
+	"(*" + lmdbPkg + ".Txn).Flags":      zzPath + ".MTxnFlags",
+	"(*" + lmdbPkg + ".Txn).Stat":       zzPath + ".MTxnStat",
+	"(*" + lmdbPkg + ".Txn).Get":        zzPath + ".MTxnGet",
+	"(*" + lmdbPkg + ".Txn).Put":        zzPath + ".MTxnPut",
+	"(*" + lmdbPkg + ".Txn).Del":        zzPath + ".MTxnDel",
+	"(*" + lmdbPkg + ".Txn).Drop":       zzPath + ".MTxnDrop",
+	"(*" + lmdbPkg + ".Txn).OpenCursor": zzPath + ".MTxnOpenCursor",
+	"(*" + lmdbPkg + ".Cursor).Get":     zzPath + ".MCursorGet",
+	"(*" + lmdbPkg + ".Cursor).Put":     zzPath + ".MCursorPut",
+	"(*" + lmdbPkg + ".Cursor).Del":     zzPath + ".MCursorDel",
+	"(*" + lmdbPkg + ".Cursor).Close":   zzPath + ".MCursorClose",
+}
+
+// functions of lmdb-go that are executed from their real SSA (pure Go helpers)
+var lmdbExec = map[string]bool{
+	lmdbPkg + ".IsNotFound": true, lmdbPkg + ".IsMapFull": true, lmdbPkg + ".IsErrno": true,
+	lmdbPkg + ".IsErrnoFn": true, lmdbPkg + ".IsErrno$1": true, lmdbPkg + ".IsMapResized": true,
+}
